@@ -1,5 +1,6 @@
 import Emerge.Emitted
 import Emerge.Proofs.Scanner
+import Emerge.Proofs.Reader
 /-
   C19 — the emitted lexer tokenises input exactly as the token automaton prescribes.
 
@@ -11,9 +12,13 @@ import Emerge.Proofs.Scanner
   that no token starts with discarded, any other stray character a lexical error naming it, end of
   input after the last token; every lexeme is the exact text, every position that of its first
   character; nothing but discarded blanks is lost.
-  Not proved: that the emitted two-half reader (input.go.tmpl) delivers the plain rune stream for
-  every buffer size and alignment — that is exercised by running the compiled lexer with an
-  8-byte and the 4096-byte buffer.
+  The emitted two-half reader (input.go.tmpl; model `Emerge.Reader`, tied to the compiled template
+  by the `reader` correspondence of checks/c19.py) is proved to be the plain byte stream for EVERY
+  half size, source length and block alignment (`C19_reader`, `C19_reader_lexeme`): `next`,
+  `Retract`, `Lexeme` and `Skip` return what a cursor over the whole source returns, as long as the
+  calls stay within the reader's contract (source without NUL; a `Retract` gives back bytes of the
+  pending lexeme; lexeme plus look-ahead fit into one half). Not proved: the UTF-8 assembly of
+  `Next` from `next` (exercised by running the compiled lexer on multi-byte texts).
 -/
 namespace Emerge.Props.C19
 open Emerge Emerge.Scanner Emerge.Emitted
@@ -141,5 +146,35 @@ def demo : Spec := specOf [(0, 97, 122, 1), (1, 97, 122, 1), (0, 48, 57, 2), (2,
 example : (Emitted.scan demo [97, 98, 32, 10, 49, 50, 9, 120]).1.map (fun t => (t.kind, t.lexeme, t.pos.off, t.pos.line, t.pos.col)) =
     [("ID", [97, 98], 0, 1, 1), ("NUM", [49, 50], 4, 2, 1), ("ID", [120], 7, 2, 4)] := by decide
 example : (Emitted.scan demo [97, 63]).2 = .lexErr ⟨1, 1, 2⟩ [63] := by decide
+
+/-! ### the reader under the emitted lexer -/
+
+open Emerge.Reader in
+/-- **The two-half reader is the plain stream.** For every source without NUL bytes, every half size `n ≥ 1`
+    (the emitted constant is 4096; the check also compiles it with 4 and 8) and every sequence of `next` /
+    `Retract(size)` / `Lexeme` / `Skip` calls within the contract, the outputs of the reader (bytes, end of input,
+    lexemes) are those of a cursor over the whole source: independent of the input length, of where the buffer
+    halves fall and of how often a half has been reloaded. -/
+theorem C19_reader {src : Nat → Nat} {len n : Nat} (hnf : NulFree src len) (hn : 0 < n) (buf0 : Nat → Nat)
+    (ops : List Reader.Op) (outs : List Out) (h : aRun src len n ⟨0, 0, 0⟩ ops = some outs) :
+    cRun src len n (init src len n buf0) ops = outs :=
+  reader_is_stream hnf hn buf0 ops outs h
+
+open Emerge.Reader in
+/-- `Lexeme` in any reachable state: the bytes between the start of the pending lexeme and the cursor. -/
+theorem C19_reader_lexeme {src : Nat → Nat} {len n : Nat} {s : RState} {k : Nat} {g : Ghost}
+    (h : Inv src len n s k g) (kb : Nat) (hkb : kb ≤ k) (hwin : k + s.pend ≤ kb + n) (hlb : s.lb = cell g n kb) :
+    (lexeme n s).1 = (List.range (k - kb)).map (fun i => src (kb + i)) :=
+  lexeme_refines h kb hkb hwin hlb
+
+open Emerge.Reader in
+/-- Non-vacuity: half size 4, an 11-byte source, a run that crosses three half boundaries, gives bytes back across a
+    boundary and takes lexemes; it is within the contract, and the reader's outputs are the stream's. -/
+example :
+    let src : Nat → Nat := fun i => [97, 98, 99, 100, 101, 102, 103, 104, 105, 106, 107].getD i 0
+    let ops : List Reader.Op := [.next, .next, .next, .retract 2, .next, .lexeme, .next, .next, .next, .next, .skip,
+      .next, .next, .next, .retract 3, .next, .next, .next, .lexeme, .next, .next, .next, .next]
+    aRun src 11 4 ⟨0, 0, 0⟩ ops = some (cRun src 11 4 (init src 11 4 (fun _ => 0)) ops) ∧
+    (cRun src 11 4 (init src 11 4 (fun _ => 0)) ops).getLast? = some .eof := by decide
 
 end Emerge.Props.C19
